@@ -194,4 +194,9 @@ def loadFile (file : Bytes) : Except PyErr Loaded :=
     | .error e => .error e
     | .ok t => loadRest file h t
 
+/-- the keywords `FCSFile.__init__` requires (looked up with `[...]`, a missing one is a `KeyError`), in order of first use -/
+def requiredKeywords : List String :=
+  ["$BEGINSTEXT", "$ENDSTEXT", "$MODE", "$DATATYPE", "$PAR", "$P{0}B", "$BYTEORD", "$NEXTDATA", "$BEGINANALYSIS", "$ENDANALYSIS", "$P{0}R",
+   "$TOT", "$BEGINDATA", "$ENDDATA"]
+
 end FlowCal.File
